@@ -17,9 +17,12 @@ def check(run, tier):
     q = tier == "quick"
     run.mc("MC_Twin", "MC_Twin_mixed")
     run.mc("MC_Twin", "MC_Twin_mixed_fluent")
+    if not q:
+        run.mc("MC_Twin", "MC_Twin_config")
+        run.mc("MC_Twin", "MC_Twin_config_fluent")
     r = rng("C16")
     progs = []
-    base = targeted.worklist_programs("evo") + targeted.fault_programs("evo") + targeted.limit_programs("evo") + targeted.device_programs() + targeted.round2_programs("evo")
+    base = targeted.worklist_programs("evo") + targeted.fault_programs("evo") + targeted.limit_programs("evo") + targeted.device_programs() + targeted.round2_programs("evo") + targeted.config_programs("evo")
     for p in base:
         progs += paired(p)
     n = 120 if q else 3000
@@ -27,6 +30,9 @@ def check(run, tier):
         p = programs.worklist_program(r, f"C16/r{i}", "evo" if i % 2 else "fluent", r.randint(1, 8), fault=0.25 if i % 2 else 0.0,
                                       unit=Fraction(1), wlmax=r.choice([2, 3, 5, 16]), autosplit=(i % 5 != 0), emit_prob=0.3 if i % 3 == 0 else 0.0)
         progs += paired(p)
+    for i in range(30 if q else 800):
+        progs += paired(programs.worklist_program(r, f"C16/c{i}", "evo" if i % 2 else "fluent", r.randint(3, 7), fault=0.1,
+                                                  wlmax=r.choice([2, 3, 5]), comps=False, reconfig_prob=0.35))
     for p in targeted.base_programs():
         progs.append(p)
     run_programs(run, progs, keep_pairs=True)
